@@ -500,6 +500,8 @@ fn reply_cases(sink: &mut Sink<'_>) {
 trait UnitProxy {
     async fn ping(&mut self) -> zlink_core::Result<Result<(), EA>>;
     async fn ping_with_arg(&mut self, n: u32) -> zlink_core::Result<Result<(), EA>>;
+    #[zlink(more)]
+    async fn watch(&mut self) -> zlink_core::Result<impl futures_util::Stream<Item = zlink_core::Result<Result<(), EA>>>>;
 }
 
 fn no_parameters_cases(sink: &mut Sink<'_>) {
@@ -530,6 +532,56 @@ fn no_parameters_cases(sink: &mut Sink<'_>) {
                     }
                 }
             }
+        }
+        // a streaming proxy method without outputs: two continuing items and the final one, all in
+        // this spelling
+        {
+            let item = |c: bool| {
+                let mut m: Vec<(String, Value)> = vec![];
+                if let Some(p) = p {
+                    m.push(("parameters".into(), p.clone()));
+                }
+                m.push(("continues".into(), json!(c)));
+                let ident: Vec<usize> = (0..m.len()).collect();
+                text_in_order(&m, &ident)
+            };
+            let frames = [item(true), item(true), item(false)];
+            let case = json!({"group": "no-parameters", "site": "streaming proxy method without outputs", "replies": frames, "spelling": sp});
+            let wire = Wire::new(0, None);
+            for f in &frames {
+                wire.arrive(f.as_bytes());
+                wire.arrive(&[0]);
+            }
+            let mut conn = wire.connection();
+            match complete_or_stall(conn.watch()) {
+                Some(Ok(st)) => {
+                    let mut st = std::pin::pin!(st);
+                    let mut got = Vec::new();
+                    for _ in 0..4 {
+                        match complete_or_stall(futures_util::StreamExt::next(&mut st)) {
+                            Some(Some(Ok(Ok(())))) => got.push("item"),
+                            Some(None) => {
+                                got.push("end");
+                                break;
+                            }
+                            Some(Some(_)) => {
+                                got.push("error");
+                                break;
+                            }
+                            None => {
+                                got.push("stall");
+                                break;
+                            }
+                        }
+                    }
+                    if got == ["item", "item", "item", "end"] {
+                        sink.pass(H64::new().s("proxy-stream").s(sp).get())
+                    } else {
+                        sink.fail(format!("envelope:unit-output-proxy-rejects-parameters-{sp}"), format!("three replies without parameters (spelled {sp}) to a streaming proxy method without outputs gave {got:?}"), case)
+                    }
+                }
+                other => sink.fail("envelope:streaming-proxy-method-failed", format!("{:?}", other.map(|r| r.map(|_| ()))), case),
+            };
         }
         // the library's GetInfo method
         let mut m: Vec<(String, Value)> = vec![("method".into(), json!("org.varlink.service.GetInfo"))];
